@@ -134,7 +134,7 @@ func (p *hwProc) crashReason() string {
 	_ = p.cmd.Wait()
 	for _, l := range strings.Split(p.errb.String(), "\n") {
 		if strings.HasPrefix(l, "panic: ") || strings.HasPrefix(l, "fatal error: ") {
-			return strings.ReplaceAll(strings.TrimSpace(l), " ", "-")
+			return strings.ReplaceAll(strings.ReplaceAll(strings.TrimSpace(l), ": ", ":"), " ", "-")
 		}
 	}
 	return "exit"
@@ -270,6 +270,21 @@ func (c *hwClient) cur() (chan client.Result, int) {
 	c.mu.Lock()
 	defer c.mu.Unlock()
 	return c.stream, c.subs
+}
+
+// curStream: the current subscription; if start() has run but its Watch goroutine has not subscribed yet, wait for it
+func (e *hwEnv) curStream() (chan client.Result, int) {
+	st, subs := e.fc.cur()
+	if st != nil {
+		return st, subs
+	}
+	started := false
+	hwWait(func() bool { _, _, s, ok := e.bh.VerifTryState(); started = s; return ok }, hwWatchdog)
+	if !started {
+		return nil, 0
+	}
+	hwWait(func() bool { st, subs = e.fc.cur(); return st != nil }, hwWatchdog)
+	return st, subs
 }
 
 // ------------------------------------------------------------------------------------------------ the child
@@ -483,7 +498,7 @@ func (e *hwEnv) deliver(n uint64) string {
 	if e.holding {
 		return "refused"
 	}
-	st, _ := e.fc.cur()
+	st, _ := e.curStream()
 	if st == nil {
 		return "nostream"
 	}
@@ -552,10 +567,10 @@ func (e *hwEnv) op(f []string) string {
 		e.fc.info = e.infoFor(c, hwPeriod*time.Second)
 		inf := *e.fc.info
 		e.fc.mu.Unlock()
-		e.bh.VerifSetChainInfo(&inf)
+		e.bh.VerifSetChainInfoIfCached(&inf)
 		return "ok"
 	case "req":
-		if _, err := strconv.ParseUint(f[2], 10, 64); err != nil {
+		if r, err := strconv.ParseUint(f[2], 10, 64); err != nil || r == 0 {
 			return "refused"
 		}
 		return e.request(f[1], "/public/"+f[2])
@@ -619,7 +634,7 @@ func (e *hwEnv) op(f []string) string {
 		if e.holding || e.gate != nil {
 			return "refused"
 		}
-		st, subs := e.fc.cur()
+		st, subs := e.curStream()
 		if st == nil {
 			return "nostream"
 		}
@@ -632,7 +647,7 @@ func (e *hwEnv) op(f []string) string {
 		if !e.tmode || e.holding {
 			return "refused"
 		}
-		if st, _ := e.fc.cur(); st == nil {
+		if st, _ := e.curStream(); st == nil {
 			return "nostream"
 		}
 		if !hwWait(func() bool { _, s := e.fc.cur(); return s >= 2 }, hwWatchdog) {
@@ -669,6 +684,14 @@ func (e *hwEnv) op(f []string) string {
 		r, err := strconv.ParseUint(f[1], 10, 64)
 		if err != nil {
 			return "refused"
+		}
+		if f[2] != "std" && f[2] != "err" {
+			if !strings.HasPrefix(f[2], "b") {
+				return "refused"
+			}
+			if _, err := strconv.ParseUint(f[2][1:], 10, 64); err != nil {
+				return "refused"
+			}
 		}
 		e.fc.mu.Lock()
 		if f[2] == "std" {
@@ -831,7 +854,7 @@ func (e *hwEnv) race(f []string) string {
 
 // deliverRaw: push round n and wait until the watcher has released the lock again (no waiting for requests)
 func (e *hwEnv) deliverRaw(n uint64) string {
-	st, _ := e.fc.cur()
+	st, _ := e.curStream()
 	calls := &atomic.Int32{}
 	select {
 	case st <- hwResult{hwBeacon(n), calls}:
